@@ -71,6 +71,13 @@ func Scenarios() []*Scn {
 		{Name: "S29-timeout-then-burst", Pool: std, Capacity: 4, Sources: [][]Ev{{S, Ev{JSON: `{"m":"x2"}`, Delay: 700 * time.Millisecond}, ev(`{"m":"x3"}`)}}, Actions: []string{"join"}, Props: "C04 C05 C02 C15"},
 		{Name: "S30-timeout-hold-late-put", Pool: low, Capacity: 4, Sources: [][]Ev{{S, Ev{JSON: `{"m":"S2"}`, Delay: 600 * time.Millisecond}, Ev{JSON: `{"m":"x3"}`, Delay: 600 * time.Millisecond}}}, Actions: []string{"join"}, Props: "C04 C05 C02 C15"},
 		{Name: "S32-timeout-then-late-continuation", Pool: std, Capacity: 4, Sources: [][]Ev{{S, Ev{JSON: `{"m":"S2"}`, Delay: 600 * time.Millisecond}, Ev{JSON: `{"m":"C3"}`, Delay: 600 * time.Millisecond}, ev(`{"m":"x4"}`)}}, Actions: []string{"join"}, Props: "C15 C04"},
+		// a pooled event object that was a split parent is handed out again for an ordinary record (capacity 1: every event
+		// reuses the one object), with a batching output that skips parents
+		{Name: "S33-split-then-plain-same-object", Pool: std, Capacity: 1, Sources: [][]Ev{{ev(`{"arr":[{"m":"c1"},{"m":"c2"}]}`), ev(`{"k":2}`), ev(`{"k":3}`)}}, Actions: []string{"split"}, BatchCount: 2, Props: "C01 C02 C05"},
+		{Name: "S35-split-then-plain-same-object-lowmem", Pool: low, Capacity: 1, Sources: [][]Ev{{ev(`{"arr":[{"m":"c1"}]}`), ev(`{"k":2}`)}}, Actions: []string{"split"}, Props: "C01 C02 C05"},
+		// a late put racing the heartbeat (as S23), followed by more events of the same stream: an event that vanished must
+		// not be committed past
+		{Name: "S34-join-hold-late-put-then-more", Pool: std, Capacity: 4, Sources: [][]Ev{{S, Ev{JSON: `{"m":"x2"}`, Delay: 400 * time.Millisecond}, ev(`{"m":"x3"}`), ev(`{"m":"x4"}`)}}, Actions: []string{"join"}, Props: "C01 C02 C15"},
 		{Name: "S18-cap1-join-hold", Pool: low, Capacity: 1, Sources: [][]Ev{{S, Oth}}, Actions: []string{"join"}, Props: "C04 C05"},
 		{Name: "S19-1proc-2streams", Pool: std, Capacity: 2, SingleProc: true, Sources: [][]Ev{{x, y, x2}}, Props: "C02 C04"},
 		{Name: "S20-exits-of-In", Pool: std, Capacity: 2, MaxEventSize: 40, Sources: [][]Ev{{
